@@ -70,7 +70,7 @@ CHECKS = {
              "all()-example is the first falsifying assignment; completeness of arguments and of evaluated "
              "names/attributes/calls/subscripts/comprehensions.",
         note="Trusted: CPython as the oracle, the recorder (AST rewriting that preserves evaluation order and short-circuiting), the "
-             "message parser. Two recorded omissions (KF-C06-1, KF-C06-2).",
+             "message parser. One recorded omission (KF-C06-2: values inside f-strings).",
         technique="exhaustive grammar enumeration on the real code with CPython itself as the reference (instrumented re-evaluation)",
         design="3/C06"),
     "C07": dict(
